@@ -182,6 +182,7 @@ func (l *Lemma) Stmt() Expr {
 
 type BeforeClause struct {
 	Callee string // short name as printed in obligation names (Strings, sort.Strings, Recv.Name)
+	Occ    int    // 0 = every call of the callee, k = only the k-th call site (in the order the generator meets them)
 	E      Expr
 	Line   int
 }
@@ -204,6 +205,7 @@ type FuncContract struct {
 	Trusted   bool // body not verified (listed as assumption)
 	NoBody    bool // only used as callee contract
 	AllowPanic bool
+	CiteFor    map[string][]string // lemma -> obligation-name parts it is cited for (absent: every obligation)
 	// Before: ghost assertions proved (and then assumed) just before calls of the named callee: an intermediate fact
 	// that splits a proof in two (e.g. the precondition-like antecedent of a callee's conditional postcondition)
 	Before []BeforeClause
@@ -791,7 +793,25 @@ func (p *parser) parseContract(sf *SpecFile) (*FuncContract, error) {
 			if err != nil {
 				return nil, err
 			}
-			c.Cites = append(c.Cites, ids...)
+			// cite L1, L2 for "substring": only for the obligations whose name contains the substring
+			only := ""
+			if p.acceptKw("for") {
+				t := p.peek()
+				if t.kind != tString {
+					return nil, p.errf("cite ... for needs a quoted obligation name part")
+				}
+				p.next()
+				only = strings.Trim(t.text, "\"")
+			}
+			for _, id := range ids {
+				c.Cites = append(c.Cites, id)
+				if c.CiteFor == nil {
+					c.CiteFor = map[string][]string{}
+				}
+				if only != "" {
+					c.CiteFor[id] = append(c.CiteFor[id], only)
+				}
+			}
 		case "before":
 			name, err := p.ident()
 			if err != nil {
@@ -804,6 +824,11 @@ func (p *parser) parseContract(sf *SpecFile) (*FuncContract, error) {
 				}
 				name += "." + id
 			}
+			occ := 0
+			if t := p.peek(); t.kind == tInt {
+				p.next()
+				fmt.Sscanf(t.text, "%d", &occ)
+			}
 			if err := p.expectP(":"); err != nil {
 				return nil, err
 			}
@@ -811,7 +836,7 @@ func (p *parser) parseContract(sf *SpecFile) (*FuncContract, error) {
 			if err != nil {
 				return nil, err
 			}
-			c.Before = append(c.Before, BeforeClause{Callee: name, E: e, Line: tk.line})
+			c.Before = append(c.Before, BeforeClause{Callee: name, Occ: occ, E: e, Line: tk.line})
 		case "pure":
 			c.Pure = true
 		case "trusted":
